@@ -215,4 +215,29 @@ theorem applyRecord_novalidate (cfg : Cfg) (s s' : State) (rec : Nat) (r : Recor
   rename_i s1 h1
   simp_all [nv_contents cfg r.author rec r.contents s s1 h1]
 
+/-! ### the partial decode is invisible to a non-validating list -/
+
+theorem applyRkc_shrink (cfg : Cfg) (s : State) (a rec me : Nat) (rk : Rkc) (val : Bool) :
+    applyRkc cfg false s a rec (shrinkRkc me rk) val = applyRkc cfg false s a rec rk val := by
+  simp [applyRkc, shrinkRkc]
+
+theorem applyContent_shrink (cfg : Cfg) (s : State) (a rec me : Nat) (c : Content) :
+    applyContent cfg false s a rec (shrinkContent me c) = applyContent cfg false s a rec c := by
+  cases c <;> rfl
+
+theorem applyContents_shrink (cfg : Cfg) (a rec me : Nat) (cs : List Content) : ∀ s,
+    applyContents cfg false s a rec (cs.map (shrinkContent me)) = applyContents cfg false s a rec cs := by
+  induction cs with
+  | nil => intro s; rfl
+  | cons c t ih =>
+    intro s
+    simp only [List.map_cons, applyContents, applyContent_shrink]
+    cases applyContent cfg false s a rec c with
+    | error e => rfl
+    | ok s1 => exact ih s1
+
+theorem applyRecord_shrink (cfg : Cfg) (s : State) (rec me : Nat) (r : Record) :
+    applyRecord cfg false s rec (shrinkRecord me r) = applyRecord cfg false s rec r := by
+  simp only [applyRecord, shrinkRecord, applyContents_shrink]
+
 end AnySync.Acl
